@@ -733,6 +733,10 @@ class Enumerator:
                 ob = ("nounder", a, b)
                 if ob not in st["assumed"]:
                     st["assumed"].append(ob)
+            if op == "Add" and not (a[0] == "int" and b[0] == "int"):
+                ob = ("noover", "Add", a, b)
+                if ob not in st["assumed"]:
+                    st["assumed"].append(ob)
             return mk_bin(op, a, b)
         if k == "unop":
             a = self.operand(st, r["a"])
@@ -846,6 +850,12 @@ class Enumerator:
                 if msg.startswith("overflow") and self.opts.assume_no_overflow:
                     if "no-overflow" not in st["assumed"]:
                         st["assumed"].append("no-overflow")
+                    # which operation is assumed not to overflow (rules that must discharge the assumption read it here)
+                    f = c[2] if (c[0] == "un" and c[1] == "Not") else c
+                    if isinstance(f, tuple) and f and f[0] == "ovf" and f[1] in ("Add", "Mul"):
+                        ob = ("noover", f[1], f[2], f[3])
+                        if ob not in st["assumed"]:
+                            st["assumed"].append(ob)
                     bb = t["target"]
                     continue
                 ok = atom_of(c, t["expected"])
